@@ -613,6 +613,17 @@ macro_rules! impl_kind {
                         let mut sk = self.v.iter().skip(k);
                         if sk.len() != n.saturating_sub(k) { bad(43, k); }
                         if let Some(e) = sk.next() { if !addr_ok(e.as_bytes().as_ptr(), k) { bad(43, k); } }
+                        // internal iteration (`for_each` / `fold`, `rfold`) over what is left once a cursor has moved
+                        let mut it = self.v.iter();
+                        for _ in 0..k { it.next(); }
+                        let mut j = k.min(n);
+                        it.for_each(|e| { if !addr_ok(e.as_bytes().as_ptr(), j) { bad(43, j); } j += 1; });
+                        if j != n { bad(43, j); }
+                        let mut it = self.v.iter();
+                        for _ in 0..k { it.next_back(); }
+                        let mut j = n.saturating_sub(k);
+                        it.rfold((), |(), e| { j = j.wrapping_sub(1); if !addr_ok(e.as_bytes().as_ptr(), j) { bad(43, j); } });
+                        if j != 0 { bad(43, j); }
                     }
                     if self.v.iter().step_by(2).count() != n.div_ceil(2) { bad(43, n); }
                     let last = self.v.iter().last().map(|e| e.as_bytes().as_ptr() as usize);
